@@ -38,8 +38,20 @@ pub struct Case {
 
 const FSCALE: [f32; 6] = [1.0, 1e-2, 1e-4, 1e-6, 64.0, 1e4];
 
+/// wscale 0..=3: the whole matrix times 1, 2, 1/2, 4 (the same projective map
+/// with w != 1).  wscale 4..=7: only the homogeneous entry (3,3) is scaled, by
+/// 0.5, 0.625, 0.75, 0.875 -- a uniform magnification kept in w, so that the
+/// model region is larger than the unit cube; with no other transform the
+/// first three rows of the matrix are exactly those of the identity.
 fn w2m_of(case: &Case) -> nalgebra::Matrix4<f32> {
-    world_to_model(&case.xform) * [1.0f32, 2.0, 0.5, 4.0][case.wscale as usize % 4]
+    let k = case.wscale as usize % 8;
+    if k < 4 {
+        world_to_model(&case.xform) * [1.0f32, 2.0, 0.5, 4.0][k]
+    } else {
+        let mut m = world_to_model(&case.xform);
+        m[(3, 3)] *= [0.5f32, 0.625, 0.75, 0.875][k - 4];
+        m
+    }
 }
 
 pub struct P;
@@ -528,7 +540,7 @@ fn run<F: MathFunction + RenderHints + Clone>(case: &Case, cx: &mut Cx) -> Check
     // vertex) and is not constrained by this clause: the centre of a collapsed
     // cell lies on the finest lattice too, and unclamped cell vertices are
     // finding F9.
-    let plain = case.xform.is_none();
+    let plain = case.xform.is_none() && case.wscale % 8 < 4;
     let cells = (1u32 << case.depth) as f32;
     let on_lattice = |c: f32| {
         let k = (c + 1.0) * cells / 2.0;
@@ -685,7 +697,7 @@ impl Prop for P {
             ],
             any::<bool>(),
             prop_oneof![3 => Just(0u8), 2 => Just(1u8), 1 => 2u8..=5],
-            prop_oneof![3 => Just(0u8), 1 => 1u8..=3],
+            prop_oneof![3 => Just(0u8), 1 => 1u8..=3, 1 => 4u8..=7],
             prop_oneof![3 => Just(0u8), 2 => 1u8..=5],
         )
             .prop_map(|(shape, depth, xform, jit, threads, wscale, fscale)| Case {
